@@ -36,7 +36,7 @@ require (
 	github.com/drand/kyber v1.1.4 // indirect
 	github.com/edsrzf/mmap-go v1.0.0 // indirect
 	github.com/emirpasic/gods v1.12.0 // indirect
-	github.com/gcash/bchd v0.16.5 // indirect
+	github.com/gcash/bchd v0.16.5
 	github.com/gcash/bchlog v0.0.0-20180913005452-b4f036f92fa6 // indirect
 	github.com/gcash/bchutil v0.0.0-20200506001747-c2894cd54b33 // indirect
 	github.com/go-kit/kit v0.10.0 // indirect
